@@ -36,6 +36,7 @@ type Answer struct {
 	AccessLife   int    `json:"access_life,omitempty"`    // the access token lives this many seconds (expires_in says so); the ID token keeps the provider's lifetime
 	Azp          bool   `json:"azp,omitempty"`            // honest ID token that also carries azp = client id
 	RotateOnce   bool   `json:"rotate_once,omitempty"`    // refresh: rotate the refresh token the first time, omit the member afterwards
+	Groups       int    `json:"groups,omitempty"`         // honest ID token with a groups claim of this many entries (600 entries = a token answer of about 20 KiB)
 }
 
 var Honest = Answer{Name: "honest"}
@@ -339,6 +340,13 @@ func (p *SimIdP) process(tr *TokenReq, mode Answer) (int, string) {
 		}
 		if mode.Azp {
 			claims["azp"] = p.ClientID
+		}
+		if mode.Groups > 0 {
+			gs := make([]any, mode.Groups)
+			for i := range gs {
+				gs[i] = fmt.Sprintf("group-%04d-of-the-directory", i)
+			}
+			claims["groups"] = gs
 		}
 		key := p.Key
 		if mode.RSA {
